@@ -244,6 +244,34 @@ def authOp (univ : List Str) (s : Auth) (tok : String) : Option (Auth × String)
   | "ia" :: r => do
     let a ← adm? r
     pure ({ s with db := { s.db with adms := insDB (·.id) a s.db.adms } }, "-")
+  | ["fs", f, adm, list] => do
+    -- a start with the configuration's provisioners (first start = migration when the database has none)
+    let item? (t : String) : Option (Bool × Prov) :=
+      match t.splitOn "/" with
+      | [role, id, name, tok, kid, sum, kind] => do
+        pure (role = "d", { id := (← str? id), name := (← str? name), tok := (← str? tok), kid := (← optStr? kid),
+                            sum := (← str? sum), kind := (← kind.toNat?), dkind := some (← kind.toNat?) })
+      | _ => none
+    let items ← (if list = "-" then some [] else (list.splitOn ",").mapM item?)
+    let placeholder : Prov := { id := Verif.s "unwritten-default", name := Verif.s "Admin JWK", tok := Verif.s "unwritten-default",
+                                kid := none, sum := Verif.s "00000000000000000000000000000000", kind := jwkKind, dkind := some jwkKind }
+    let m : FirstStart := { cfg := (items.filter (fun x => !x.1)).map (·.2),
+                            dflt := ((items.find? (·.1)).map (·.2)).getD placeholder,
+                            admId := (← optStr? adm).getD (Verif.s "unwritten-admin") }
+    let faults ← faults? f
+    match Auth.migrate migrateAtomic faults s.db m with
+    | (db', _, some o) =>
+      let dA := join ((db'.adms.mergeSort fun x y => strKeyLe x.id y.id).map admS)
+      let dP := join (sortS (db'.provs.map provS))
+      pure ({ s with db := db' }, authOutS o ++ "#" ++ s!"dA[{dA}]dP[{dP}]")
+    | _ =>
+      let r := Auth.firstStart current migrateAtomic faults s.db m
+      if r.2 = .ok then fin r else
+        -- the start failed in the reload: there is no running CA, only the database
+        let dA := join ((r.1.db.adms.mergeSort fun x y => strKeyLe x.id y.id).map admS)
+        let dP := join (sortS (r.1.db.provs.map provS))
+        -- (a CA that was running before keeps running on its caches)
+        pure ({ s with db := r.1.db }, authOutS r.2 ++ "#" ++ s!"dA[{dA}]dP[{dP}]")
   | ["boot"] => fin (Auth.step current [] s .restart)
   | ["rs"] => fin (Auth.step current [] s .restart)
   | ["sa", id, sub, pid, t, apid, apname, f] => do
@@ -405,8 +433,16 @@ def validEval (line : String) : Option String := do
       hostGiven := (← bool? (← look kv "h")), https := (← bool? (← look kv "s")), userinfo := (← bool? (← look kv "i")),
       kindKnown := (← bool? (← look kv "k")), secretGiven := (← bool? (← look kv "sec")), idGiven := (← bool? (← look kv "id")),
       nameTaken := (← bool? (← look kv "taken")) }
-    pure (match createWebhookCheck b with
-      | .proceed => "proceed" | .badRequest => "bad" | .conflict => "conflict")
+    let res := match look kv "op" with
+      | some "update" => updateWebhookCheck b ((look kv "sd") == some "1") ((look kv "idd") == some "1")
+      | _ => createWebhookCheck b
+    pure (match res with
+      | .proceed => "proceed" | .badRequest => "bad" | .conflict => "conflict" | .notFound => "notfound")
+  | "pp" :: _ => do
+    let verb ← (match look kv "op" with
+      | some "create" => some PolicyVerb.create | some "update" => some .update | some "delete" => some .delete | _ => none)
+    pure (match provPolicyHandlerCheck verb (← bool? (← look kv "has")) (← bool? (← look kv "p")) (← bool? (← look kv "v")) with
+      | .proceed => "proceed" | .badRequest => "bad" | .conflict => "conflict" | .notFound => "notfound")
   | ["kinds"] => pure s!"n={provisionerKinds.length}"
   | _ => none
 
@@ -416,6 +452,21 @@ def orderEval (line : String) : Option String := do
   let c ← listOf (fun t => (str? t).map strOf) (← look kv "c")
   match writeOrder.filter (fun e => e.1 = f) with
   | [e] => pure (if e.2 = c then "present" else "order-differs:" ++ ",".intercalate e.2)
+  | [] => pure "absent"
+  | _ => pure "duplicate"
+
+def convEval (line : String) : Option String := do
+  let kv := kvs line
+  let d ← look kv "d"
+  let t ← look kv "t"
+  let n ← (← look kv "n").toNat?
+  let x ← listOf (fun h => (str? h).map fun b => ((strOf b).splitOn ".").filter (· ≠ "")) (← look kv "x")
+  match convLoss.filter (fun r => r.dir = d ∧ r.typ = t) with
+  | [r] =>
+    let missing := r.loss.filter (fun p => !x.contains p)   -- in the table, not lost any more
+    let extra := x.filter (fun p => !r.loss.contains p)      -- lost, not in the table
+    pure (if r.fields = n ∧ missing.isEmpty ∧ extra.isEmpty then "pinned"
+          else s!"differs:n={r.fields}:newly-lost={",".intercalate (extra.map (".".intercalate ·))}:no-longer-lost={",".intercalate (missing.map (".".intercalate ·))}")
   | [] => pure "absent"
   | _ => pure "duplicate"
 
@@ -447,11 +498,14 @@ def eval (line : String) : Option String := do
   | ["routes"] => pure s!"n={adminRoutes.length}"
   | "order" :: _ => orderEval line
   | ["orders"] => pure s!"n={writeOrder.length}"
+  | "conv" :: _ => convEval line
+  | ["convs"] => pure s!"n={convLoss.length}"
   | "dur" :: _ => validEval line
   | "init" :: _ => validEval line
   | "body" :: _ => validEval line
   | "det" :: _ => validEval line
   | "wh" :: _ => validEval line
+  | "pp" :: _ => validEval line
   | ["kinds"] => validEval line
   | _ => none
 
